@@ -566,6 +566,31 @@ pub fn run_single(check: &Check, bi: usize, run: u64, seed: u64) -> i32 {
     0
 }
 
+/// runs `from..to` of one batch, one after the other on this thread (used when the whole
+/// process is interpreted by Miri: undefined behaviour aborts the interpreter with its own report)
+pub fn serial_runs(check: &Check, bi: usize, from: u64, to: u64, seed: u64) -> i32 {
+    let batch = &check.batches[bi];
+    let mut bad = 0;
+    for i in from..to {
+        let rec = run_one(batch, Tape::generate(seed ^ stream_id(check.prop, bi), i), false);
+        let mine: Vec<&Violation> = rec.out.violations.iter().filter(|v| v.prop == check.prop).collect();
+        out_line(&format!("SERIAL-RUN {} {} {} hash={:016x} events={} violations={}", check.prop, batch.name, i, rec.hash, rec.events, mine.len()));
+        if let Some(p) = &rec.harness_panic {
+            out_line(&format!("HARNESS-PANIC {}", p));
+            bad += 1;
+        }
+        for v in mine {
+            out_line(&format!("violation {} {} {}", v.prop, v.rule, v.detail));
+            bad += 1;
+        }
+    }
+    if bad > 0 {
+        1
+    } else {
+        0
+    }
+}
+
 pub fn out_line(s: &str) {
     crate::stdout_line(s);
 }
